@@ -598,7 +598,8 @@ class SInt:
         c = ctx()
         if c.collide:
             c.hashes += 1
-            return 0x5A5A
+            d = _determined_value(c, s.e)
+            return 0x5A5A if d is None else hash(d)
         e = z3.simplify(s.e)
         if z3.is_bv_value(e):
             return hash(e.as_signed_long())
@@ -626,10 +627,14 @@ class SInt:
         return s
 
     def bit_length(s):
-        if s.lo is None or s.hi is None:
-            raise OutOfModel('bit_length of unbounded int')
         a = abs(s)
-        top = max(abs(s.lo), abs(s.hi)).bit_length()
+        if s.lo is None or s.hi is None:
+            # unbounded (Int-sorted) value: decide |x| < 2^40 on this path, give up beyond
+            if not bool(SBool(a.e < (1 << 40))):
+                raise OutOfModel('bit_length of an int above 2^40')
+            top = 40
+        else:
+            top = max(abs(s.lo), abs(s.hi)).bit_length()
         if top > 64:
             raise OutOfModel('bit_length above 64 bits')
         mk = (lambda v: z3.BitVecVal(v, W)) if a.bv else (lambda v: z3.IntVal(v))
@@ -800,7 +805,8 @@ class SReal:
         c = ctx()
         if c.collide:
             c.hashes += 1
-            return 0x5A5A
+            d = _determined_value(c, s.e)
+            return 0x5A5A if d is None else hash(d)
         e = z3.simplify(s.e)
         if z3.is_rational_value(e):
             return hash(Fraction(e.numerator_as_long(), e.denominator_as_long()))
@@ -871,6 +877,31 @@ class SReal:
     @property
     def imag(s):
         return 0
+
+
+def _determined_value(c, e):
+    """collide mode: a key whose value is FORCED by the path condition hashes like that number (so it meets equal concrete keys, e.g. the
+    -1.0 / 0.0 / 1.0 entries a dict literal already holds); any other symbolic key hashes to the collide constant"""
+    es = z3.simplify(e)
+    if z3.is_bv_value(es):
+        return es.as_signed_long()
+    if z3.is_int_value(es):
+        return es.as_long()
+    if z3.is_rational_value(es):
+        return Fraction(es.numerator_as_long(), es.denominator_as_long())
+    if c.check() != 'sat':
+        return None
+    v = c.model().eval(e, model_completion=True)
+    if c.check(e != v) != 'unsat':
+        return None
+    v = z3.simplify(v)
+    if z3.is_bv_value(v):
+        return v.as_signed_long()
+    if z3.is_int_value(v):
+        return v.as_long()
+    if z3.is_rational_value(v):
+        return Fraction(v.numerator_as_long(), v.denominator_as_long())
+    return None
 
 
 def is_sym(x):
